@@ -1,26 +1,13 @@
-"""Per-property configuration of the driver (./check).
+"""Loads the per-property configuration files cfg/<ID>.py (each defines CHECK = {...}).
 
 harness entry: exe (target name = harness/<exe>.cpp), flavour (plain|asan|tsan),
 cases (quick, thorough) = total generated cases over all processes, procs (quick, thorough),
-subs = sub-check names served by this executable (to route replay files).
+subs = sub-check names served by this executable (to route replay files), optional size/args.
 """
+import glob
+import os
+import runpy
 
 CHECKS = {}
-
-CHECKS["C20"] = {
-    "harnesses": [
-        {"exe": "c20_stats", "flavour": "plain", "cases": (400000, 20000000), "procs": (8, 14), "subs": ["percentile", "histogram"]},
-    ],
-    "min_nontrivial": (1000, 10000),
-    "rule": ("rapidcheck-generated lists of 1..500 integers/reals (ties, negatives) x 6 percentages (k/8 grid, reals, positions integral "
-             "up to rounding) and histograms in 6 construction modes x 12+ query values; oracle = sorted-array reference with the exact "
-             "rational position / the counting rule #{thresholds <= v}. Non-trivial: percentile case with >= 3 values, not all equal and a "
-             "fractional position; histogram case with >= 2 non-empty bins, a data value equal to a threshold and a non-integer query. "
-             "Distinct = distinct serialised cases (64-bit hash)."),
-    "assumptions": ["harness-side sorted-array reference is correct", "rapidcheck generators; Eigen"],
-    "technique": "property-based testing (rapidcheck) against a sorted-array reference model with exact rational positions",
-    "level_text": ("Generated-input exploration: hundreds of thousands (quick) to tens of millions (thorough) of generated value lists, "
-                   "percentages, threshold sets and query values are compared with an independent sorted-array reference; held on everything "
-                   "generated, no claim beyond that."),
-    "level_note": "trusted: the harness-side reference (sorting + exact position in long double), rapidcheck, Eigen; ambiguous near-integer positions accept both roundings",
-}
+for _path in sorted(glob.glob(os.path.join(os.path.dirname(os.path.abspath(__file__)), "cfg", "C*.py"))):
+    CHECKS[os.path.basename(_path)[:-3]] = runpy.run_path(_path)["CHECK"]
